@@ -805,6 +805,228 @@ DJV_CMD(c10_dir, "c10.dir")
     return "";
 }
 
+// ---------------------------------------------------------------- directory shapes (C16, C10)
+// c16.probe <shape> <entry> <schema-1.x> <schema-2.x>
+//   <shape> = N0 (no directory at all) or three letters <m><p><d>:
+//       m : m.db            a absent | v valid (1.x library of <schema-1.x>, one root crate) | z zero bytes | g garbage
+//       p : p.db            a | v | z | g
+//       d : Database2/      a absent | e present and empty | v Database2/m.db valid (2.x library of <schema-2.x>,
+//                           one root crate) | z zero bytes | g garbage
+//   <entry> = a static entry point that takes a directory (see dir_entries below); it is applied twice, every
+//   object it returns is destroyed again; around the two applications a recursive listing of the directory
+//   (every directory and file, size, SHA-256) is taken.
+//   -> before=<h> after=<h> a1=<answer> a2=<answer> | <listing before> | <listing after>
+// c16.entries -> the names of the entry points, comma separated
+namespace
+{
+namespace fs = std::filesystem;
+
+std::string file_sha(const std::string& path, uint64_t* size)
+{
+    sha256 sh;
+    std::ifstream in(path, std::ios::binary);
+    std::vector<char> buf(1 << 16);
+    uint64_t sz = 0;
+    while (in)
+    {
+        in.read(buf.data(), (std::streamsize)buf.size());
+        auto n = in.gcount();
+        sh.update(buf.data(), (size_t)n);
+        sz += (uint64_t)n;
+    }
+    if (size) *size = sz;
+    return sh.hex();
+}
+
+// every directory and file below `dir`, sorted: "<rel>/" for a directory, "<rel>:<size>:<sha256 prefix>" for a file
+std::string dir_listing(const std::string& dir)
+{
+    if (!fs::exists(dir)) return "(no directory)";
+    std::vector<std::string> items;
+    for (auto& p : fs::recursive_directory_iterator(dir))
+    {
+        std::string rel = p.path().string().substr(dir.size() + 1);
+        if (p.is_directory())
+            items.push_back(rel + "/");
+        else
+        {
+            uint64_t sz = 0;
+            auto h = file_sha(p.path().string(), &sz);
+            items.push_back(rel + ":" + std::to_string((unsigned long long)sz) + ":" + h.substr(0, 16));
+        }
+    }
+    std::sort(items.begin(), items.end());
+    std::string o;
+    for (auto& i : items) o += (o.empty() ? "" : ",") + i;
+    return o.empty() ? "(empty)" : o;
+}
+
+void write_file(const std::string& path, const std::string& content)
+{
+    std::ofstream out(path, std::ios::binary | std::ios::trunc);
+    out.write(content.data(), (std::streamsize)content.size());
+}
+
+std::string garbage_bytes()
+{
+    std::string g = "this is not an SQLite database file; ";
+    while (g.size() < 5000) g += g;
+    return g.substr(0, 4099);
+}
+
+// templates written by the real creators, once per (process, schema)
+const std::string& template_dir(e::engine_schema sch, const char* marker)
+{
+    static std::map<std::string, std::string> made;
+    auto key = name_of(sch);
+    auto it = made.find(key);
+    if (it != made.end()) return it->second;
+    auto d = new_dir() + "/tmpl";
+    fs::create_directories(d);
+    {
+        auto db = e::create_database(d, sch);
+        auto c = db.create_root_crate(marker);
+        dj::track_snapshot ts;
+        ts.relative_path = std::string("../music/") + marker + ".mp3";
+        ts.title = std::string(marker);
+        auto t = db.create_track(ts);
+        c.add_track(t);
+    }
+    g_wrap.handles.clear();
+    return made.emplace(key, d).first->second;
+}
+
+void place(const std::string& dst, char how, const std::string& valid_src)
+{
+    switch (how)
+    {
+        case 'a': break;
+        case 'v': fs::copy_file(valid_src, dst); break;
+        case 'z': write_file(dst, ""); break;
+        case 'g': write_file(dst, garbage_bytes()); break;
+        default: throw bad_command{"shape letter"};
+    }
+}
+
+std::string crates_and_tracks(dj::database db)
+{
+    std::string s = ids(cids(db.crates()), true) + ids(tids(db.tracks()), true);
+    for (auto& t : db.tracks()) s += hs(wr_snapshot(t.snapshot()));
+    for (auto& c : db.crates()) s += hexstr(c.name()) + ids(tids(c.tracks()), true);
+    db.verify();
+    return s + " " + hs(db.uuid()) + " " + hexstr(db.version_name());
+}
+
+using dir_entry = std::pair<const char*, std::function<std::string(const std::string&)>>;
+const std::vector<dir_entry>& dir_entries()
+{
+    static const std::vector<dir_entry> v{
+        {"engine.database_exists", [](const std::string& d) { return std::string(e::database_exists(d) ? "1" : "0"); }},
+        {"engine.load_database",
+         [](const std::string& d)
+         {
+             e::engine_schema sch{};
+             auto db = e::load_database(d, sch);
+             return "loaded " + name_of(sch);
+         }},
+        {"engine.load_database(1-arg)",
+         [](const std::string& d)
+         {
+             auto db = e::load_database(d);
+             return std::string("loaded");
+         }},
+        {"engine.load_and_observe", [](const std::string& d) { return crates_and_tracks(e::load_database(d)); }},
+        {"engine.create_or_load_database(1.x)",
+         [](const std::string& d)
+         {
+             bool created = false;
+             e::engine_schema sch{};
+             auto db = e::create_or_load_database(d, e::engine_schema::schema_1_18_0_os, created, sch);
+             return std::string(created ? "created" : "loaded " + name_of(sch));
+         }},
+        {"engine.create_or_load_database(2.x)",
+         [](const std::string& d)
+         {
+             bool created = false;
+             e::engine_schema sch{};
+             auto db = e::create_or_load_database(d, e::engine_schema::schema_2_21_2, created, sch);
+             return std::string(created ? "created" : "loaded " + name_of(sch));
+         }},
+        {"engine.create_or_load_database(3-arg)",
+         [](const std::string& d)
+         {
+             bool created = false;
+             auto db = e::create_or_load_database(d, e::engine_schema::schema_2_21_2, created);
+             return std::string(created ? "created" : "loaded");
+         }},
+        {"v2.engine_library.exists", [](const std::string& d) { return std::string(ev2::engine_library::exists(d) ? "1" : "0"); }},
+        {"v2.engine_library.load",
+         [](const std::string& d)
+         {
+             auto lib = ev2::engine_library::load(d);
+             return "loaded " + name_of(lib.schema());
+         }},
+        {"v2.engine_library.load_and_observe",
+         [](const std::string& d)
+         {
+             auto lib = ev2::engine_library::load(d);
+             lib.verify();
+             auto inf = lib.information().get();
+             auto n = lib.track().all_ids().size() + lib.playlist().all_ids().size();
+             return "loaded " + name_of(lib.schema()) + " " + lib.directory().substr(lib.directory().size() - 3) + " " +
+                    hs(inf.uuid) + " " + std::to_string(n) + " " + crates_and_tracks(lib.database());
+         }},
+    };
+    return v;
+}
+}  // namespace
+
+DJV_CMD(c16_entries, "c16.entries")
+{
+    std::string o;
+    for (auto& en : dir_entries()) o += (o.empty() ? "" : ",") + std::string(en.first);
+    return o;
+}
+
+DJV_CMD(c16_probe, "c16.probe")
+{
+    const std::string& shape = a.at(1);
+    const std::string& entry = a.at(2);
+    auto s1 = schema_of(a.at(3));
+    auto s2 = schema_of(a.at(4));
+    const dir_entry* en = nullptr;
+    for (auto& x : dir_entries())
+        if (entry == x.first) en = &x;
+    if (!en) throw bad_command{"entry"};
+    reset_all();
+    handles_guard hg;
+    quiet_guard q;
+    std::string dir = new_dir() + "/lib";
+    if (shape != "N0")
+    {
+        if (shape.size() != 3) throw bad_command{"shape"};
+        const auto& t1 = template_dir(s1, "L-marker");
+        const auto& t2 = template_dir(s2, "D-marker");
+        fs::create_directories(dir);
+        place(dir + "/m.db", shape[0], t1 + "/m.db");
+        place(dir + "/p.db", shape[1], t1 + "/p.db");
+        if (shape[2] != 'a')
+        {
+            fs::create_directories(dir + "/Database2");
+            if (shape[2] != 'e') place(dir + "/Database2/m.db", shape[2], t2 + "/Database2/m.db");
+        }
+    }
+    auto l0 = dir_listing(dir);
+    auto a1 = safe([&] { return en->second(dir); });
+    auto a2 = safe([&] { return en->second(dir); });
+    auto l1 = dir_listing(dir);
+    for (auto& c : a1)
+        if (c == ' ') c = '_';
+    for (auto& c : a2)
+        if (c == ' ') c = '_';
+    return "before=" + hs(l0) + " after=" + hs(l1) + " a1=" + a1 + " a2=" + a2 + " | " + l0 + " | " + l1;
+}
+
 // ---------------------------------------------------------------- 2.x table API
 namespace
 {
